@@ -155,14 +155,17 @@ def intact_violations(path):
 class Faults:
     """Intercepts dvc_objects' generic.transfer for uploads into one destination store.
 
-    * uploads whose destination oid is in `fail` raise OSError (reported through on_error);
+    * uploads whose destination oid is in `fail` fail with an exception whose kind is a function of the oid (an I/O
+      error, a permission error, a connection error), reported through on_error; for an oid in `vanish` the source
+      object is deleted first and the failure is the FileNotFoundError a real copy would raise;
     * every attempted upload is recorded in `events` as (oid, 'ok'|'fail');
     * after every event `on_event` (if given) is called: this is where the closure oracle looks
       at the destination as a process killed at that point would leave it."""
 
-    def __init__(self, dest_odb, fail=(), on_event=None):
+    def __init__(self, dest_odb, fail=(), on_event=None, vanish=()):
         self.dest = dest_odb
         self.fail = set(fail)
+        self.vanish = set(vanish)
         self.events = []
         self.on_event = on_event
         self.dir_order = []
@@ -188,7 +191,16 @@ class Faults:
                 oid = me.dest.path_to_oid(t)
                 if oid in me.fail:
                     me.events.append((oid, "fail"))
-                    exc = OSError(5, "injected upload failure for " + oid)
+                    if oid in me.vanish:
+                        with contextlib.suppress(OSError):
+                            os.chmod(f, 0o644)
+                        with contextlib.suppress(OSError):
+                            os.remove(f)
+                        exc = FileNotFoundError(2, "No such file or directory", f)
+                    else:
+                        k = int(oid[:2], 16) % 3
+                        exc = (OSError(5, "injected upload failure for " + oid), PermissionError(13, "injected: permission denied", t),
+                               ConnectionError("injected: connection reset for " + oid))[k]
                     if on_error is not None:
                         on_error(f, t, exc)
                     else:
